@@ -33,11 +33,19 @@ func (a TA) IfaceM() string  { return "iface:" + a.V }
 
 type Iface interface{ IfaceM() string }
 
-var c07Types = []string{"string", "int", "A", "*A", "map", "[]string", "any", "Stringer", "Iface"}
+// defined types whose underlying type is one of the unnamed types of the universe: assignable in the sense of
+// the Go spec, but a value of one never passes a type assertion to the other
+type NMap map[string]any
+type NSlice []string
+
+var c07Types = []string{"string", "int", "A", "*A", "map", "[]string", "NMap", "NSlice", "any", "Stringer", "Iface"}
+
+const c07Concrete = 8 // the first c07Concrete entries of c07Types are concrete types
 
 var c07RT = map[string]reflect.Type{
 	"string": reflect.TypeOf(""), "int": reflect.TypeOf(0), "A": reflect.TypeOf(TA{}), "*A": reflect.TypeOf(&TA{}),
 	"map": reflect.TypeOf(map[string]any{}), "[]string": reflect.TypeOf([]string{}),
+	"NMap": reflect.TypeOf(NMap{}), "NSlice": reflect.TypeOf(NSlice{}),
 	"any": reflect.TypeOf((*any)(nil)).Elem(), "Stringer": reflect.TypeOf((*fmt.Stringer)(nil)).Elem(), "Iface": reflect.TypeOf((*Iface)(nil)).Elem(),
 }
 
@@ -58,6 +66,10 @@ func c07Value(name string) any {
 		return map[string]any{"k": "v"}
 	case "[]string":
 		return []string{"x"}
+	case "NMap":
+		return NMap{"k": "v"}
+	case "NSlice":
+		return NSlice{"x"}
 	}
 	return nil
 }
@@ -119,6 +131,8 @@ func regIn[I any](in string) {
 	regIO[I, *TA](in, "*A")
 	regIO[I, map[string]any](in, "map")
 	regIO[I, []string](in, "[]string")
+	regIO[I, NMap](in, "NMap")
+	regIO[I, NSlice](in, "NSlice")
 	regIO[I, any](in, "any")
 	regIO[I, fmt.Stringer](in, "Stringer")
 	regIO[I, Iface](in, "Iface")
@@ -137,6 +151,8 @@ func init() {
 	regIn[*TA]("*A")
 	regIn[map[string]any]("map")
 	regIn[[]string]("[]string")
+	regIn[NMap]("NMap")
+	regIn[NSlice]("NSlice")
 	regIn[any]("any")
 	regIn[fmt.Stringer]("Stringer")
 	regIn[Iface]("Iface")
@@ -176,7 +192,7 @@ type CaseC07 struct {
 func genC07(t *rapid.T) CaseC07 {
 	c := CaseC07{}
 	ty := func(l string) string { return c07Types[rapid.IntRange(0, len(c07Types)-1).Draw(t, l)] }
-	conc := func(l string) string { return c07Types[rapid.IntRange(0, 5).Draw(t, l)] }
+	conc := func(l string) string { return c07Types[rapid.IntRange(0, c07Concrete-1).Draw(t, l)] }
 	dynFor := func(l string) string {
 		// any concrete type, or nil with low weight
 		if rapid.IntRange(0, 11).Draw(t, "nilDyn") == 0 {
@@ -204,6 +220,12 @@ func genC07(t *rapid.T) CaseC07 {
 		case 2:
 			if isIface(from) {
 				return conc("impl")
+			}
+			return from
+		case 3:
+			// near miss: same underlying type, different defined type (not acceptable)
+			if tw, ok := map[string]string{"map": "NMap", "NMap": "map", "[]string": "NSlice", "NSlice": "[]string"}[from]; ok && rapid.Bool().Draw(t, "nearMiss") {
+				return tw
 			}
 			return from
 		default:
@@ -397,6 +419,8 @@ func regGIn[I any](in string) {
 	regG[I, *TA](in, "*A")
 	regG[I, map[string]any](in, "map")
 	regG[I, []string](in, "[]string")
+	regG[I, NMap](in, "NMap")
+	regG[I, NSlice](in, "NSlice")
 	regG[I, any](in, "any")
 	regG[I, fmt.Stringer](in, "Stringer")
 	regG[I, Iface](in, "Iface")
@@ -409,16 +433,25 @@ func init() {
 	regGIn[*TA]("*A")
 	regGIn[map[string]any]("map")
 	regGIn[[]string]("[]string")
+	regGIn[NMap]("NMap")
+	regGIn[NSlice]("NSlice")
 	regGIn[any]("any")
 	regGIn[fmt.Stringer]("Stringer")
 	regGIn[Iface]("Iface")
 }
 
+// assignable: would the value pass the hand-over to a position of type `to`?  This is type-assertion
+// semantics (identical dynamic type, or an interface the dynamic type implements), which is narrower than
+// Go assignability: a map[string]any value does not fit a position of a defined type with that underlying type.
 func assignable(v any, to string) bool {
 	if v == nil {
 		return isIface(to)
 	}
-	return reflect.TypeOf(v).AssignableTo(c07RT[to])
+	tt := c07RT[to]
+	if tt.Kind() == reflect.Interface {
+		return reflect.TypeOf(v).Implements(tt)
+	}
+	return reflect.TypeOf(v) == tt
 }
 
 func checkC07(c CaseC07) (*vkit.Failure, vkit.Meta) {
